@@ -56,5 +56,28 @@ META.update({
         "mapping row per (order, covered step) with factor capa x dt, bool flag iff full execution, empty cover => zero cost and no row; "
         "the order loop is summarised for a symbolic number of orders. io 'special' output not under contract. " + PROOF_NOTE)),
 })
+
+META.update({
+    'C06': dict(level='other', assumptions=['A1', 'A2', 'A3', 'A5'], explanation=(
+        "proved (unbounded horizon): row families of _add_constrains_for_start_and_shutdown, _add_constraints_for_min_runtime, "
+        "_add_constraints_for_min_downtime, _add_constraints_for_heat from the real source, and the exactness lemmas C06.minrun/.mindown "
+        "sound+complete, start flag at every transition. bounded (never counted as proved): Plant assembled by the real driver, all 2^T "
+        "on/off patterns for T in {4,5} pinned in the MIP and decided by SCIP vs a reference predicate. " + PROOF_NOTE)),
+    'C11': dict(level='other', assumptions=['A5'], explanation=(
+        "exact part: attribute / parameter / dropped-key sets are read off the real AST on every run (finite sets: C11.keys.<K>, C11.grid.tz). "
+        "bounded part: round trips on enumerated instances. Known finding D15-LinkedAsset.")),
+    'C13': dict(level='other', assumptions=['A1', 'A2', 'A4'], explanation=(
+        "no function contract reaches __make_periodic__ or __extend_mapping_to_minor_grid__ (nested data-dependent pandas loops): the "
+        "property is decided by bounded stand-ins only (periodic / coarse contract vs independent scipy LP with equalities; coarse grid "
+        "partition on real grids) -- nothing here is counted as proved.")),
+    'C15': dict(level='other', assumptions=['A2', 'A3', 'A5'], explanation=(
+        "proved on the real source (fix_time_window case of the assembly contract): pinned only if in the window, others untouched, costs "
+        "untouched, frame. The converse (every window variable is pinned) needs a first-occurrence (well-ordering) argument the solver "
+        "does not do: bounded scenarios. " + PROOF_NOTE)),
+    'C16': dict(level='other', assumptions=['A2', 'A3', 'A5', 'A6'], explanation=(
+        "proved: ScaledAsset.setup_optim_problem LP data for bases with one mapping row per variable. The step from the LP data to 'behaves "
+        "like the base with capacities x s/S' is A6 + bounded scenarios. StructuredAsset not under contract. " + PROOF_NOTE)),
+})
+
 from . import c06  # noqa
 from . import c12  # noqa
